@@ -1349,10 +1349,12 @@ public:
       k = 0;
       previousNumFree = numFree;
       numFree = 0;             // start list of rows still free after augmenting row reduction.
+      size_t rowScans = 0;     // number of rows scanned in this sweep.
       while (k < previousNumFree)
       {
         i = free[k];
         k++;
+        rowScans++;
 
         // find minimum and second minimum reduced cost over columns.
         uMin = assignCost(i, 0) - v[0];
@@ -1401,7 +1403,11 @@ public:
 
         if (i0 >= 0)            // minimum column j1 assigned earlier.
         {
-          if (uMin < uSubMin)
+          // a chain of re-assignments between rows with nearly tied reduced costs may lower
+          // v[j1] by arbitrarily small amounts arbitrarily often (the number of steps grows with
+          // cost range / smallest cost difference): it is cut after dim scans per row of the
+          // list, the row is then left to the augmentation phase.
+          if (uMin < uSubMin && rowScans < k * dim)
           {
             // put in current k, and go back to that k.
             // continue augmenting path i - j1 with i0.
